@@ -787,6 +787,11 @@ class EEA:
             body = body[1:]
         guards = []
         nested: list = []
+        # guard written the other way round: `if k in d: return` ... `raise`  ==  `if k not in d: raise`
+        if len(body) == 2 and isinstance(body[0], ast.If) and not body[0].orelse and len(body[0].body) == 1 and isinstance(body[0].body[0], ast.Return) and (body[0].body[0].value is None or isinstance(body[0].body[0].value, ast.Constant)) and isinstance(body[1], ast.Raise) and isinstance(body[0].test, ast.Compare) and len(body[0].test.ops) == 1 and isinstance(body[0].test.ops[0], ast.In):
+            t0 = body[0].test
+            neg = ast.copy_location(ast.Compare(left=t0.left, ops=[ast.NotIn()], comparators=t0.comparators), t0)
+            body = [ast.copy_location(ast.If(test=neg, body=[body[1]], orelse=[]), body[0])]
         for b in body:
             if isinstance(b, ast.If) and not b.orelse and b.body and isinstance(b.body[-1], ast.Raise) and isinstance(b.test, ast.Compare) and len(b.test.ops) == 1 and isinstance(b.test.ops[0], ast.NotIn):
                 guards.append((b.test.left, b.test.comparators[0]))
@@ -1439,6 +1444,12 @@ class EEA:
                     c = self.exc_class_of(arg, cfr)
             else:
                 c = self.exc_class_of(r.func, hfr)
+            if isinstance(r.func, ast.Name) and (c is None or not (c.startswith(PKG) or self._is_exception_class(c))) and r.func.id not in h.params:
+                # the class comes out of a constant table: `error_type, text = TABLE[operation]` ... `return error_type(..)`
+                tc = self._table_classes(h, r.func.id, call, params)
+                if tc:
+                    out |= tc
+                    continue
             if c is None:
                 return set()
             d = self.prog.lookup_fullname(c) if c.startswith(PKG) else None
@@ -1452,6 +1463,50 @@ class EEA:
             else:
                 return set()
         return out
+
+    def _table_classes(self, h: FuncInfo, name: str, call: ast.Call | None, params: list) -> set:
+        """Exception classes a local `name` of factory h can hold when it is taken from a module-level constant dict
+        (`name = TABLE[key]` / `name, other = TABLE[key]`): the entry of the constant key the call passes, else all."""
+        for st in ast.walk(h.node):
+            if not (isinstance(st, ast.Assign) and len(st.targets) == 1 and isinstance(st.value, ast.Subscript) and isinstance(st.value.value, ast.Name)):
+                continue
+            tg = st.targets[0]
+            idx = None
+            if isinstance(tg, ast.Name) and tg.id == name:
+                idx = -1
+            elif isinstance(tg, (ast.Tuple, ast.List)):
+                for i, e_ in enumerate(tg.elts):
+                    if isinstance(e_, ast.Name) and e_.id == name:
+                        idx = i
+            if idx is None:
+                continue
+            d = self.prog.resolve_name(self.prog.origin(h.module, st.value.value), st.value.value.id)
+            if d is None or d.kind != "const" or not isinstance(d.obj, ast.Dict):
+                return set()
+            want = None
+            k = st.value.slice
+            if isinstance(k, ast.Constant):
+                want = k.value
+            elif isinstance(k, ast.Name) and k.id in params and call is not None:
+                a = None
+                if params.index(k.id) < len(call.args):
+                    a = call.args[params.index(k.id)]
+                for kw in call.keywords:
+                    if kw.arg == k.id:
+                        a = kw.value
+                if isinstance(a, ast.Constant):
+                    want = a.value
+            out: set = set()
+            for kk, vv in zip(d.obj.keys, d.obj.values):
+                if want is not None and not (isinstance(kk, ast.Constant) and kk.value == want):
+                    continue
+                e_ = vv.elts[idx] if idx >= 0 and isinstance(vv, (ast.Tuple, ast.List)) and idx < len(vv.elts) else vv if idx == -1 else None
+                c = self._exc_class_in(d.module, e_) if isinstance(e_, (ast.Name, ast.Attribute)) else None
+                if c is None or not self._is_exception_class(c):
+                    return set()
+                out.add(c)
+            return out
+        return set()
 
     def _is_exception_class(self, cls: str) -> bool:
         try:
@@ -1770,6 +1825,14 @@ class EEA:
                 tab = self.I.folder.fold(fr.module, e.value)
             except Exception:  # noqa: BLE001
                 tab = None
+            if tab is None and isinstance(e.value, ast.Name):
+                # values that are not constants (classes, functions): the *keys* are what matters here
+                dd = self.prog.resolve_name(self.prog.origin(fr.module, e.value), e.value.id)
+                if dd is not None and dd.kind == "const" and isinstance(dd.obj, ast.Dict) and all(k_ is not None for k_ in dd.obj.keys):
+                    try:
+                        tab = {self.I.folder.plain(self.I.folder.fold(dd.module, k_)): None for k_ in dd.obj.keys}
+                    except Exception:  # noqa: BLE001
+                        tab = None
             if isinstance(tab, dict) and not tainted:
                 total = False
                 if isinstance(e.slice, ast.Call) and isinstance(e.slice.func, ast.Name) and e.slice.func.id == "bool" and len(e.slice.args) == 1 and {True, False} <= set(tab):
@@ -1780,6 +1843,15 @@ class EEA:
                         total = kv in tab
                     except Exception:  # noqa: BLE001
                         total = False
+                    if not total:
+                        # the key is a parameter bound to literal arguments in this calling context
+                        try:
+                            vals = self.I.eval(e.slice, fr)
+                        except AnalysisError:
+                            vals = frozenset()
+                        from .interp import Const as _Const
+
+                        total = bool(vals) and all(isinstance(v, _Const) and v.value in tab for v in vals)
                 if total and self._constant_table_unmodified(e.value, fr):
                     self.discharged.append({"site": self.site(fr, e, "subscript").loc(), "what": f"{base_txt}[{key_txt}]", "by": "constant lookup table that has this key (nothing in the package modifies it)"})
                     return {}
